@@ -46,6 +46,9 @@ type sys struct {
 func newSys(w *vt.Writer, tag string) *sys {
 	p := agg.New(2, 3, 1, 1)
 	if *wide {
+		// the library's MinExpiryTime (a package variable, 100 ms by default: invisible against units of an hour) is made
+		// 5 units here, so that everything the code derives from it is visible to the model (constant MinU)
+		intermediate.MinExpiryTime = 5 * agg.Unit
 		p = agg.New(20, 30, 1, 1)
 	}
 	w.Reset(vt.Ev{"tag": tag})
